@@ -79,7 +79,11 @@ def worker(args):
                 if s.check() == z3.sat:
                     out["covers_sat"] += 1
             for ob in p.obligations:
-                discharge(ob, timeout_ms, want_smt2)
+                sample = (not want_smt2) and not out.get("_sampled") and not ob.info.get("trivial")
+                discharge(ob, timeout_ms, want_smt2 or sample)
+                if sample and ob.status == "proved":
+                    out["_sampled"] = True
+                    out["sample_smt2"] = {"obligation": ob.name, "smt2": (ob.smt2 or "")[:3000]}
                 rec = {"name": ob.name, "status": ob.status, "secs": round(ob.secs, 4), "clause": ob.info.get("clause"),
                        "path": ob.info.get("path"), "backend": ob.backend, "info": {k: v for k, v in ob.info.items() if k in ("line", "unexpected_exception", "callee", "spec_raised", "trivial")}}
                 if ob.status == "refuted":
@@ -285,7 +289,10 @@ def main(argv=None):
             if ob["status"] == "proved":
                 n_dis += 1
                 if len(samples) < 6 and not ob["info"].get("trivial"):
-                    samples.append({"obligation": ob["name"], "clause": ob["clause"], "backend": ob["backend"], "secs": ob["secs"]})
+                    sm = {"obligation": ob["name"], "clause": ob["clause"], "backend": ob["backend"], "secs": ob["secs"]}
+                    if r.get("sample_smt2") and r["sample_smt2"]["obligation"] == ob["name"]:
+                        sm["smt2_head"] = r["sample_smt2"]["smt2"][:1500]
+                    samples.append(sm)
             elif ob["status"] == "refuted":
                 violations.append((r, ob))
             else:
